@@ -37,7 +37,12 @@ SubM(a, b) == [k |-> "sub", a |-> a, b |-> b]
 GSubM(a, b) == [k |-> "gsub", a |-> a, b |-> b]        \* the same method called on the result of another call: F.Me().Sub(a, b)
 Bool(v) == [k |-> "bool", bv |-> v]
 
-NumOps == {"add", "sub", "mul"}
+NumOps == {"add", "sub", "mul", "band", "bor"}
+\* bitwise operators on small naturals
+RECURSIVE BitOp(_, _, _, _)
+BitOp(and, a, b, w) == IF w = 0 THEN 0
+                       ELSE LET x == a % 2  y == b % 2  bit == IF and THEN (IF x = 1 /\ y = 1 THEN 1 ELSE 0) ELSE (IF x = 1 \/ y = 1 THEN 1 ELSE 0)
+                            IN bit + 2 * BitOp(and, a \div 2, b \div 2, w - 1)
 CmpOps == {"lt", "le", "gt", "ge", "eq", "ne"}
 RECURSIVE Ev(_, _)
 Ev(t, f) ==
@@ -54,6 +59,8 @@ Ev(t, f) ==
            [] t.op = "add" -> [t |-> "n", v |-> AddD(a.v, b.v)]
            [] t.op = "sub" -> [t |-> "n", v |-> SubD(a.v, b.v)]
            [] t.op = "mul" -> [t |-> "n", v |-> MulD(a.v, b.v)]
+           [] t.op = "band" -> [t |-> "n", v |-> D(BitOp(TRUE, a.v.m, b.v.m, 8), 0)]      \* (small non-negative integers only)
+           [] t.op = "bor" -> [t |-> "n", v |-> D(BitOp(FALSE, a.v.m, b.v.m, 8), 0)]
            [] t.op = "and" -> [t |-> "b", b |-> a.b /\ b.b]
            [] t.op = "or"  -> [t |-> "b", b |-> a.b \/ b.b]
            [] t.op \in CmpOps /\ a.t = "n" ->
